@@ -178,7 +178,7 @@ def gen_case(ctx):
         settings["verbose"] = "true"
     return {"ops": ops, "shape": shape, "deleted": deleted, "merges": merges, "geometry": geometry,
             "default": rng.choice([None, None, ["defPatch", "wall"], ["rest", "patch"]]), "modify": modify,
-            "settings": settings, "vtk": rng.random() < 0.5, "thin_gap": thin_gap, "delete_shape_op": rng.random() < 0.3,
+            "settings": settings, "vtk": rng.random() < 0.5, "thin_gap": thin_gap, "shape_del_frac": rng.random(), "delete_shape_op": rng.random() < 0.3,
             "pre_history": rng.choice([None, None, "assemble", "clear", "clear", "backport"]), "late_delete": rng.random() < 0.6}
 
 
@@ -240,7 +240,7 @@ def build(case, cb):
         for i in case["deleted"]:
             mesh.delete(objs[i])
         if shape is not None and case["delete_shape_op"]:
-            mesh.delete(shape.operations[-1])
+            mesh.delete(shape.operations[_shape_del_index(case, shape)])
     for m, s in case["merges"]:
         mesh.merge_patches(m, s)
     if case["default"]:
@@ -264,7 +264,7 @@ def build(case, cb):
             for i in case["deleted"]:
                 mesh.delete(objs[i])
             if shape is not None and case["delete_shape_op"]:
-                mesh.delete(shape.operations[-1])
+                mesh.delete(shape.operations[_shape_del_index(case, shape)])
     elif case.get("pre_history") == "assemble":
         mesh.assemble()
     return mesh, objs, shape
@@ -283,7 +283,7 @@ def run_case(ctx, case):
     if shape is not None:
         sops = list(shape.operations)
         if case["delete_shape_op"]:
-            sops = sops[:-1]
+            del sops[_shape_del_index(case, shape)]
         for so in sops:
             live.append({"pts": np.array(so.point_array, dtype=float), "op": None, "shape": True, "obj": so})
         shape_geometry = shape.geometry
@@ -541,6 +541,17 @@ def run_case(ctx, case):
             if cell != parsed["blocks"][i]["idx"] or vt["types"][i] != 12:
                 ctx.violation("vtk-cell", f"vtk cell {i} {cell} type {vt['types'][i]} vs hex {parsed['blocks'][i]['idx']}")
                 return
+
+
+def _shape_del_index(case, shape):
+    """which operation of the shape is deleted: any (first, middle, last), fixed by the case"""
+    # (not one that carries the shape's chops: deleting that would leave the rest under-specified, legitimately rejected)
+    # A ring is one closed chain of blocks with a tangential chop on each: it stays fully specified without any block
+    # that carries no other chop. For the disk-based shapes only the last shell block is known to be safe to remove.
+    cand = [i for i, op in enumerate(shape.operations) if not (op.chops[0] or op.chops[2])]
+    if case["shape"]["kind"] != "ring" or not cand:
+        return len(shape.operations) - 1
+    return cand[int(case.get("shape_del_frac", 0.999) * len(cand)) % len(cand)]
 
 
 def _expansion_for_size(length, n, size, which):
